@@ -18,13 +18,17 @@ EXTENDS Integers, Sequences, FiniteSets, TLC
 CONSTANTS CapMod, ClearOnGrow, ResetVarsOnFree,
           MaxCtx, MaxBi, MaxVars,        \* model bounds on registrations / variables
           Texts,                         \* classes of consumed text: records [bq, ex, pp] (contains a back-quote / %exec / %preproc)
-          Outcomes,                      \* what a model lets a call do: records [ns, tm, dv, d, fds] (spawn attempts, temp files [mode, fresh],
-                                         \* new variables, context depth left open, descriptors left open)
+          Outcomes,                      \* what a model lets a call do: records [ns, tm, dv, d, fds, cwd] (spawn attempts, temp files [mode, fresh],
+                                         \* new variables, context depth left open, descriptors left open, working directory as before)
+          Progs,                         \* program names a model offers to OpRename
           GrowSteps,                     \* how many doublings one parse may cause (model bound)
           Obs(_, _, _, _)
 
-VARIABLES inited, c_idx, c_cnt, cs_idx, cs_cnt, f_idx, f_cnt, b_idx, b_cnt, zeroTo, nvars, vhead, ntemps
-vars == <<inited, c_idx, c_cnt, cs_idx, cs_cnt, f_idx, f_cnt, b_idx, b_cnt, zeroTo, nvars, vhead, ntemps>>
+VARIABLES inited, c_idx, c_cnt, cs_idx, cs_cnt, f_idx, f_cnt, b_idx, b_cnt, zeroTo, nvars, vhead, ntemps,
+          cwdok,     \* process-wide: the working directory can still be named (FALSE after it has been removed under the process)
+          prog       \* process-wide: the program name (libast_set_program_name), which the magic line of config files must carry
+vars == <<inited, c_idx, c_cnt, cs_idx, cs_cnt, f_idx, f_cnt, b_idx, b_cnt, zeroTo, nvars, vhead, ntemps, cwdok, prog>>
+UNCH_env == UNCHANGED <<cwdok, prog>>
 
 Inc8(i)       == (i + 1) % 256
 Grow(i2, cnt) == IF i2 = cnt THEN (cnt * 2) % CapMod ELSE cnt
@@ -38,13 +42,14 @@ Snap == [c_idx |-> c_idx', c_cnt |-> c_cnt', cs_idx |-> cs_idx', cs_cnt |-> cs_c
 Init == /\ inited = FALSE
         /\ c_idx = 0 /\ c_cnt = 0 /\ cs_idx = 0 /\ cs_cnt = 0 /\ f_idx = 0 /\ f_cnt = 0 /\ b_idx = 0 /\ b_cnt = 0 /\ zeroTo = 0
         /\ nvars = 0 /\ vhead = "null" /\ ntemps = 0
+        /\ cwdok = TRUE /\ prog \in Progs
 
 (* spifconf_init_subsystem: fresh tables; the seven standard built-ins are registered by the ordinary rule *)
 OpInit ==
     /\ ~inited /\ inited' = TRUE
     /\ c_idx' = 0 /\ c_cnt' = 20 /\ cs_idx' = 0 /\ cs_cnt' = 20 /\ f_idx' = 0 /\ f_cnt' = 10
     /\ b_idx' = 7 /\ b_cnt' = 10 /\ zeroTo' = 10
-    /\ UNCHANGED <<nvars, vhead, ntemps>>
+    /\ UNCHANGED <<nvars, vhead, ntemps>> /\ UNCH_env
     /\ Obs("init", <<>>, TRUE, Snap)
 
 OpRegisterContext(isnull) ==
@@ -53,7 +58,7 @@ OpRegisterContext(isnull) ==
        ELSE IF c_idx = 255 THEN UNCHANGED <<c_idx, c_cnt>>            \* I: does not fit the 8-bit id: refused, nothing changes
        ELSE /\ c_idx < MaxCtx
             /\ c_idx' = Inc8(c_idx) /\ c_cnt' = Grow(Inc8(c_idx), c_cnt)
-    /\ UNCHANGED <<inited, cs_idx, cs_cnt, f_idx, f_cnt, b_idx, b_cnt, zeroTo, nvars, vhead, ntemps>>
+    /\ UNCHANGED <<inited, cs_idx, cs_cnt, f_idx, f_cnt, b_idx, b_cnt, zeroTo, nvars, vhead, ntemps>> /\ UNCH_env
     /\ Obs("regctx", <<isnull>>, TRUE, Snap)
 
 (* spifconf_register_builtin: stores at b_idx, then grows; lookups scan for the first NULL name, so the entry at b_idx must be clear *)
@@ -63,7 +68,7 @@ OpRegisterBuiltin ==
        ELSE /\ b_idx < MaxBi
             /\ b_idx' = Inc8(b_idx) /\ b_cnt' = Grow(Inc8(b_idx), b_cnt)
             /\ zeroTo' = IF Inc8(b_idx) = b_cnt /\ ClearOnGrow THEN b_cnt' ELSE zeroTo
-    /\ UNCHANGED <<inited, c_idx, c_cnt, cs_idx, cs_cnt, f_idx, f_cnt, nvars, vhead, ntemps>>
+    /\ UNCHANGED <<inited, c_idx, c_cnt, cs_idx, cs_cnt, f_idx, f_cnt, nvars, vhead, ntemps>> /\ UNCH_env
     /\ Obs("regbi", <<>>, TRUE, Snap)
 
 (* what consuming a text may do, whatever the text is *)
@@ -79,23 +84,25 @@ Consume(t, o) ==
 (* spifconf_parse on any byte string: stacks restored (file stack), descriptors closed, indices below capacity *)
 OpParse(t, o) ==
     /\ inited /\ Consume(t, o)
-    /\ o.fds = 0                                                        \* S: all files closed
+    /\ o.fds = 0                                                        \* S: all files closed (no descriptor of any kind left)
+    /\ cwdok => o.cwd                                                   \* S: no state left behind: the working directory is the one
+                                                                        \* the call was made in (X: it cannot be named any more)
     /\ f_idx' = f_idx /\ f_cnt' \in CapChain(f_cnt, GrowSteps) /\ f_idx' < f_cnt'
     /\ cs_idx' = o.d /\ cs_idx' >= 0 /\ cs_idx' <= 255                  \* unbalanced input may leave contexts open
     /\ cs_cnt' \in CapChain(cs_cnt, GrowSteps) /\ cs_idx' < cs_cnt'
-    /\ UNCHANGED <<inited, c_idx, c_cnt, b_idx, b_cnt, zeroTo>>
+    /\ UNCHANGED <<inited, c_idx, c_cnt, b_idx, b_cnt, zeroTo>> /\ UNCH_env
     /\ Obs("parse", <<t>>, o, Snap)
 
 OpExpand(t, o) ==
     /\ inited /\ Consume(t, o)
-    /\ o.fds = 0 /\ o.d = cs_idx
-    /\ UNCHANGED <<inited, c_idx, c_cnt, cs_idx, cs_cnt, f_idx, f_cnt, b_idx, b_cnt, zeroTo>>
+    /\ o.fds = 0 /\ o.d = cs_idx /\ o.cwd
+    /\ UNCHANGED <<inited, c_idx, c_cnt, cs_idx, cs_cnt, f_idx, f_cnt, b_idx, b_cnt, zeroTo>> /\ UNCH_env
     /\ Obs("expand", <<t>>, o, Snap)
 
 (* spiftool_temp_file called directly *)
 OpTempFile(tf) ==
     /\ TempOk(tf) /\ ntemps' = ntemps + 1
-    /\ UNCHANGED <<inited, c_idx, c_cnt, cs_idx, cs_cnt, f_idx, f_cnt, b_idx, b_cnt, zeroTo, nvars, vhead>>
+    /\ UNCHANGED <<inited, c_idx, c_cnt, cs_idx, cs_cnt, f_idx, f_cnt, b_idx, b_cnt, zeroTo, nvars, vhead>> /\ UNCH_env
     /\ Obs("temp", <<>>, tf, Snap)
 
 (* spifconf_free_subsystem: S: releases everything and leaves no state behind *)
@@ -105,14 +112,21 @@ OpFree(heap) ==
     /\ nvars' = 0
     /\ vhead' = IF ResetVarsOnFree \/ nvars = 0 THEN "null" ELSE "dangling"
     /\ c_idx' = 0 /\ c_cnt' = 0 /\ cs_idx' = 0 /\ cs_cnt' = 0 /\ f_idx' = 0 /\ f_cnt' = 0 /\ b_idx' = 0 /\ b_cnt' = 0 /\ zeroTo' = 0
-    /\ UNCHANGED ntemps
+    /\ UNCHANGED ntemps /\ UNCH_env
     /\ Obs("free", <<>>, heap, Snap)
+
+(* the environment: process-wide settings the subsystem reads; they may change between any two calls *)
+UNCH_sub == UNCHANGED <<inited, c_idx, c_cnt, cs_idx, cs_cnt, f_idx, f_cnt, b_idx, b_cnt, zeroTo, nvars, vhead, ntemps>>
+OpRename(p)  == prog' = p /\ UNCHANGED cwdok /\ UNCH_sub /\ Obs("rename", <<p>>, TRUE, Snap)
+OpRemoveCwd  == cwdok /\ cwdok' = FALSE /\ UNCHANGED prog /\ UNCH_sub /\ Obs("rmcwd", <<>>, TRUE, Snap)
+OpRestoreCwd == ~cwdok /\ cwdok' = TRUE /\ UNCHANGED prog /\ UNCH_sub /\ Obs("backcwd", <<>>, TRUE, Snap)
 
 Next == \/ OpInit \/ OpFree(0)
         \/ \E n \in BOOLEAN : OpRegisterContext(n)
         \/ OpRegisterBuiltin
         \/ \E t \in Texts, o \in Outcomes : OpParse(t, o) \/ OpExpand(t, o)
         \/ OpTempFile([mode |-> 384, fresh |-> TRUE])
+        \/ OpRemoveCwd \/ OpRestoreCwd \/ \E p \in Progs : OpRename(p)
 Spec == Init /\ [][Next]_vars
 
 IndexBelowCapacity == inited => c_idx < c_cnt /\ cs_idx < cs_cnt /\ f_idx < f_cnt /\ b_idx < b_cnt
